@@ -138,8 +138,8 @@ static std::string exec(const std::vector<std::string>& t) {
         bool ok = false;
         if (t[4] == "-") { WITH(t[2], units, ok = g_url[k].parse(a, nullptr) == upa::validation_errc::ok); }
         else if (t[4][0] == 's') {
-            const upa::url base = g_url[std::atoi(t[4].c_str() + 1)];
-            WITH(t[2], units, ok = g_url[k].parse(a, &base) == upa::validation_errc::ok);
+            const upa::url* const base = &g_url[std::atoi(t[4].c_str() + 1)];   // may be the target itself
+            WITH(t[2], units, ok = g_url[k].parse(a, base) == upa::validation_errc::ok);
         } else {
             const std::size_t c = t[4].find(':');
             const std::string benc = t[4].substr(1, c - 1);
@@ -147,6 +147,33 @@ static std::string exec(const std::vector<std::string>& t) {
             WITH(t[2], units, WITH2(benc, bunits, ok = g_url[k].parse(a, b) == upa::validation_errc::ok));
         }
         return std::string("ok=") + (ok ? "1" : "0") + " " + public_dump(g_url[k]);
+    }
+    // ---- self-referential arguments (views of the object's own storage), as in driver.cpp
+    if (op == "aset" && t.size() == 4) {
+        upa::url& u = g_url[std::atoi(t[1].c_str())];
+        if (!u.is_valid()) return public_dump(u);
+        const std::string& s = t[2];
+        const std::string& g = t[3];
+        const upa::string_view a = g == "href" ? u.href() : g == "protocol" ? u.protocol() : g == "username" ? u.username() : g == "password" ? u.password() :
+            g == "host" ? u.host() : g == "hostname" ? u.hostname() : g == "port" ? u.port() : g == "pathname" ? u.pathname() : g == "search" ? u.search() :
+            g == "hash" ? u.hash() : u.path();
+        const bool ret = s == "href" ? u.href(a) : s == "protocol" ? u.protocol(a) : s == "username" ? u.username(a) : s == "password" ? u.password(a) :
+            s == "host" ? u.host(a) : s == "hostname" ? u.hostname(a) : s == "port" ? u.port(a) : s == "pathname" ? u.pathname(a) :
+            s == "search" ? u.search(a) : u.hash(a);
+        return std::string("ret=") + (ret ? "1" : "0") + " " + public_dump(u);
+    }
+    if (op == "aparse" && t.size() == 2) {
+        upa::url& u = g_url[std::atoi(t[1].c_str())];
+        if (!u.is_valid()) return public_dump(u);
+        const bool ok = u.parse(u.href(), nullptr) == upa::validation_errc::ok;
+        return std::string("ok=") + (ok ? "1" : "0") + " " + public_dump(u);
+    }
+    if (op == "aparseb" && t.size() == 4) {
+        upa::url& u = g_url[std::atoi(t[1].c_str())];
+        const std::vector<unsigned long> units = parse_units(t[3]);
+        bool ok = false;
+        WITH(t[2], units, ok = u.parse(a, &u) == upa::validation_errc::ok);
+        return std::string("ok=") + (ok ? "1" : "0") + " " + public_dump(u);
     }
     if (op == "set" && t.size() == 5) {
         const int k = std::atoi(t[1].c_str());
@@ -197,6 +224,9 @@ static std::string exec(const std::vector<std::string>& t) {
         }
         else if (o == "sort") p.sort();
         else if (o == "clear") p.clear();
+        else if (o == "aparse") { const std::string* v = nullptr; WITH(e0, a0, v = p.get(a)); if (v) p.parse(*v); else r = "0"; }
+        else if (o == "aappend") { if (p.empty()) r = "0"; else p.append(p.begin()->first, p.begin()->second); }
+        else if (o == "aset") { if (p.empty()) r = "0"; else p.set(p.begin()->first, std::prev(p.end())->second); }
         else if (o == "size") r = std::to_string(p.size());
         else if (o == "str") r = op == "sp" ? hx(p.to_string()) : std::string("?");   // psp: driver.cpp has no "str" (str= is part of every psp answer)
         else if (o == "copy") p = g_params[std::atoi(t[3].c_str())];
